@@ -203,7 +203,8 @@ Lemma corr_sound : forall c render,
   ok c = true ->
   timestamp render t_defaultLayouts (c_utc c) (c_layout c) (c_flags c) (c_shape c) = c_observed c.
 Proof.
-  intros c render Hr Hok. rewrite <- gen_timestamp. unfold ok in Hok. unfold timestamp_gen.
+  intros c render Hr Hok. rewrite <- gen_timestamp. unfold ok in Hok. apply andb_prop in Hok.
+  destruct Hok as [Hok _]. unfold ok_cand in Hok. unfold timestamp_gen.
   destruct (lookup_cand (c_cands c) _ _) as [r|] eqn:E; [|discriminate].
   rewrite (Hr _ _ _ E). apply bytes_eqb_true, Hok.
 Qed.
